@@ -157,4 +157,11 @@ mut("C15 N scaled by the column pivot", [(MAT, "            let inverse_diagonal
 mut("C15 tolerance guard instead of exact zero", [(MAT, "if determinant == const_builder.zero() {", "if determinant.abs() <= const_builder.from_f64(f64::EPSILON) {")], C15="C15-f", C16=None)
 mut("C15 N: Cholesky products commuted", [(MAT, "entry -= &q[(i, k)].ref_mul(&q[(j, k)]);", "entry -= &q[(j, k)].ref_mul(&q[(i, k)]);")], C15=None, C08=None)
 
+# ---- C12-d ----
+mut("C12 clamp removed", [(GAM, "        if x_n <= 0. {\n            x_n = 1.0e-16;\n        }\n", "")], C12="C12-d")
+mut("C12 clamp misses zero", [(GAM, "        if x_n <= 0. {", "        if x_n < 0. {")], C12="C12-d")
+mut("C12 clamp after the incomplete gamma calls", [(GAM, "        if x_n <= 0. {\n            x_n = 1.0e-16;\n        }\n\n        let err = if p <= 0.5 {\n            gamma_lr(a, x_n) - p\n        } else {\n            -(gamma_ur(a, x_n) - q)\n        };", "        let err = if p <= 0.5 {\n            gamma_lr(a, x_n) - p\n        } else {\n            -(gamma_ur(a, x_n) - q)\n        };\n        if x_n <= 0. {\n            x_n = 1.0e-16;\n        }")], C12="C12-d")
+mut("C12 N: clamp written with max", [(GAM, "        if x_n <= 0. {\n            x_n = 1.0e-16;\n        }\n", "        x_n = x_n.max(1.0e-16);\n")], C12=None)
+mut("C12 N: negated form of the clamp", [(GAM, "        if x_n <= 0. {\n            x_n = 1.0e-16;\n        }\n", "        if !(x_n > 0.) {\n            x_n = 1.0e-16;\n        }\n")], C12=None)
+
 MUTATIONS = M
